@@ -594,6 +594,35 @@ func main() {
 	}
 	fmt.Fprintf(&sb, "(* Shutdown() closes stoppedCh in a goroutine, after waitShutdown() returned *)\nDefinition stopped_closed_after_wait : bool := %s.\n\n", b(stoppedAfterWait))
 
+	// control-flow paths of the case bodies that receive a client future, and of the API constructors
+	sb.WriteString("(* control-flow paths (go/gotables/paths.go) of the loop case bodies: (loop, queue, paths as lists of events (kind, a, b):\n   respond v arg | call name | send chan | recv chan | T cond | F cond | ret expr | continue | break | end) *)\n")
+	sb.WriteString("Definition case_paths : list (string * string * list (list (string * string * string))) := [\n")
+	var cps []string
+	for _, ln := range []string{"Raft.runFollower", "Raft.runCandidate", "Raft.leaderLoop"} {
+		fd := fm[ln]
+		if fd == nil {
+			continue
+		}
+		bodies := loopCaseBodies(fd)
+		for _, q := range []string{"applyCh", "configurationChangeCh", "userRestoreCh", "verifyCh", "leadershipTransferCh"} {
+			if body, ok := bodies[q]; ok {
+				cps = append(cps, fmt.Sprintf("  (\"%s\", \"%s\",\n     %s)", strings.TrimPrefix(ln, "Raft."), q, coqPaths(bodyPaths(body))))
+			}
+		}
+	}
+	sb.WriteString(strings.Join(cps, ";\n"))
+	sb.WriteString("\n].\n\n")
+	sb.WriteString("(* control-flow paths of the API constructors: (function, paths) *)\n")
+	sb.WriteString("Definition api_paths : list (string * list (list (string * string * string))) := [\n")
+	var aps []string
+	for _, an := range []string{"Raft.ApplyLog", "Raft.Barrier", "Raft.requestConfigChange", "Raft.VerifyLeader"} {
+		if fd := fm[an]; fd != nil {
+			aps = append(aps, fmt.Sprintf("  (\"%s\",\n     %s)", strings.TrimPrefix(an, "Raft."), coqPaths(bodyPaths(fd.Body.List))))
+		}
+	}
+	sb.WriteString(strings.Join(aps, ";\n"))
+	sb.WriteString("\n].\n\n")
+
 	// constants
 	cs := constants(files, []string{"minCheckInterval", "oldestLogGaugeInterval", "rpcMaxPipeline", "maxFailureScale", "failureWait"})
 	var ck []string
